@@ -5,7 +5,7 @@ FWD6 = TOK + ["src/HttpHeader.cc", "src/HttpHeaderTools.cc", "src/HeaderMangling
               "src/anyp/Uri.cc", "src/anyp/UriScheme.cc", "src/cbdata.cc"]
 _e = lambda n, b, r, **kw: dict(name=n, bounds=b, reach=list(r), **dict(dict(sample_every=37, max_samples=8), **kw))
 _v = ("; request block 'Host: o.example' CRLF 'Via:' value CRLF 'Accept: a/b' CRLF ['Via:' value2 CRLF]; method GET; this Squid = 'squid.example (squid)'; "
-      "b = any byte except NUL, CR, LF, DQUOTE; Via elements that name this Squid in another spelling than Squid's own are excluded (KNOWN-FINDING candidate, see assumptions)")
+      "b = any byte except NUL, CR, LF, DQUOTE; Via elements that name this Squid in another spelling than Squid's own are excluded (known finding C63-via-spelling, examined by c63_known_via_spelling)")
 _m = "; request block 'Host: o.example' CRLF 'Max-Forwards:' value CRLF; method in {TRACE, OPTIONS, GET}; direct connection to the origin"
 def _fams(th):
     q = lambda a, b: b if th else a
@@ -16,6 +16,11 @@ def _fams(th):
         _e("c63_via_context", "Via values two fields ' 1.0 a,' b '1.1 squid.example (squid)' b and ' 1.1 b' | ' 1.0 fred ' b 'x, 1.1 squid.example (squid))' b" + _v, ("loop", "names-this-squid")),
         _e("c63_mf_digits", "value = SP + 1.." + ("3" if th else "2") + " symbolic digits" + _m, ("zero-answered", "decremented", "get")),
         _e("c63_mf_any", "value = " + ("b b b" if th else "b b") + " (any byte except NUL, CR, LF, DQUOTE)" + _m, ("zero-answered", "decremented", "get", "invalid-value")),
+        dict(name="c63_known_via_spelling", known=True, reach=[], max_samples=0, sample_every=0,
+             bounds="KNOWN FINDING C63-via-spelling only: Via values ' 1.0 fred' b b '1.1 ' b 'quid.example' b '(squid)' | ' 1.0 fred, 1.1 squid.example' b b | two fields "
+                    "' 1.0 fred' and ' 1.1 squid.example (squi' b b | ' 1.0 fred,' b '1.1' b 'squid.example (squid)', restricted to values with an element that names this Squid "
+                    "(received-by = unique host name, any letter case, optional port) but is not spelled SP host SP '(squid)'; its violations are listed in known_findings.json "
+                    "and printed as KNOWN-FINDING"),
     ]
 SPEC = dict(
     harness="C63_loop.cc", units=FWD6, unit_flags={"compat/xstring.cc": ["-Dxstrdup=vf_unused_squid_xstrdup"]},
@@ -42,9 +47,10 @@ SPEC = dict(
            "SquidConfig Config real global, zero-initialised, via on, forwarded_for on; src/globals.cc real",
            "libc strtoll model (glibc semantics)", "debugs() disabled"],
     assumptions=["a Via element 'names this Squid' when its received-by (second whitespace-separated token of the element; list elements split at commas outside "
-                 "comments) equals the unique host name case-insensitively",
-                 "KNOWN-FINDING candidate excluded by vf_assume: a Via element naming this Squid that is not spelled exactly SP <unique_hostname> SP '(' <appname> ')' "
-                 "(other letter case, HTAB, comment removed or changed, port appended) is not recognised by the case-sensitive substring search",
+                 "comments) equals the unique host name case-insensitively, optionally followed by ':' port",
+                 "known finding C63-via-spelling (examined only by entry c63_known_via_spelling, excluded from the others by vf_assume): a Via element naming this Squid "
+                 "that is not spelled exactly SP <unique_hostname> SP '(' <appname> ')' (other letter case, HTAB, comment removed or changed, port appended) is not "
+                 "recognised by the case-sensitive substring search",
                  "Max-Forwards value valid = 1*DIGIT after trimming SP/HT (RFC 9110 7.6.2); invalid values carry no obligation (a recipient MAY ignore them)"],
     outside="Via values other than the listed families; more than two Via fields; Max-Forwards values of more than 3 digits; several Max-Forwards fields; "
             "methods other than TRACE, OPTIONS, GET",
